@@ -7,6 +7,7 @@ import (
 	"strconv"
 	"strings"
 
+	"github.com/MinterTeam/minter-go-node/coreV2/state"
 	"github.com/MinterTeam/minter-go-node/coreV2/transaction"
 	"github.com/MinterTeam/minter-go-node/coreV2/types"
 )
@@ -14,6 +15,7 @@ import (
 func init() {
 	commands["c01"] = func(seed uint64, n int, out, stats string, a []string) { runLedgerMon("C01", seed, n, out, stats) }
 	commands["c02"] = func(seed uint64, n int, out, stats string, a []string) { runLedgerMon("C02", seed, n, out, stats) }
+	commands["c06node"] = func(seed uint64, n int, out, stats string, a []string) { runLedgerMon("C06", seed, n, out, stats) }
 }
 
 func stdSpec(r *Rng) *GenesisSpec {
@@ -27,14 +29,14 @@ func runLedgerMon(pid string, seed uint64, n int, out, stats string) {
 	var mon []MonitorFailure
 	dist := map[string]int{}
 	codes := map[string]int{}
-	blocks, txs, okTxs := 0, 0, 0
+	blocks, txs, okTxs, agree := 0, 0, 0, 0
 	var samples []string
 	nontriv := 0
 	for i := 0; i < n; i++ {
 		s := seed*1000003 + uint64(i)
 		r := NewRng(s)
 		spec := stdSpec(r)
-		g := &genOpts{Blocks: 20 + r.Intn(60), TxPerBlock: 6, Absences: true, Evidence: r.Intn(3) == 0, Malformed: true, Monitors: true}
+		g := &genOpts{Blocks: 20 + r.Intn(60), TxPerBlock: 6, Absences: true, Evidence: r.Intn(3) == 0, Malformed: true, Monitors: true, CheckDeliver: pid == "C06"}
 		h, res, w := genHistory(s, spec, g)
 		blocks += len(h.Blocks)
 		ok := 0
@@ -57,6 +59,10 @@ func runLedgerMon(pid string, seed uint64, n int, out, stats string) {
 		if pid == "C02" {
 			fails = res.C02
 		}
+		if pid == "C06" {
+			fails = res.C06
+			agree += res.C06Agree
+		}
 		for _, f := range fails {
 			f.Replay = fmt.Sprintf("vharness %s -seed %d -n %d (history %d, seed %d)", pid, seed, n, i, s)
 			mon = append(mon, f)
@@ -74,12 +80,16 @@ func runLedgerMon(pid string, seed uint64, n int, out, stats string) {
 	}
 	// directed order scenarios
 	var s01, s02 []MonitorFailure
-	sb, st := orderScenarios(seed, 1+n/3, &s01, &s02)
+	var s06 []MonitorFailure
+	sb, st := orderScenarios(seed, 1+n/3, &s01, &s02, &s06, pid == "C06")
 	blocks += sb
 	txs += st
 	nontriv += 1 + n/3
 	if pid == "C02" {
 		mon = append(mon, s02...)
+	} else if pid == "C06" {
+		mon = append(mon, s06...)
+		agree += scenAgree
 	} else {
 		mon = append(mon, s01...)
 	}
@@ -88,7 +98,7 @@ func runLedgerMon(pid string, seed uint64, n int, out, stats string) {
 	writeStats(stats, &Stats{Property: pid, Seed: seed, Cases: n + 1 + n/3, Ops: txs, NonTrivial: nontriv,
 		Rule: "directed order scenarios (committed orders partially filled and then cancelled / filled again / expiring in the same block, restarts) + seeded history of 20-80 blocks (0-6 txs per block of 33 kinds incl. a malformed stream, absences, byzantine evidence, testnet periods, stake period 12) executed on the real node; the monitor recomputes every sum of the property from the node's export after every block; non-trivial = at least one accepted state-changing tx; histories are distinct by seed",
 		Dist: dist, Samples: samples, Monitor: mon,
-		Extra: map[string]interface{}{"blocks": blocks, "txs": txs, "accepted_txs": okTxs, "codes": codes, "scenario_trades_filling_orders": scenFills, "scenario_cancels_in_the_block_of_a_fill": scenCancelsAfterFill}})
+		Extra: map[string]interface{}{"blocks": blocks, "txs": txs, "accepted_txs": okTxs, "codes": codes, "check_deliver_agreements": agree, "scenario_trades_filling_orders": scenFills, "scenario_cancels_in_the_block_of_a_fill": scenCancelsAfterFill}})
 }
 
 // conservationStep applies the C01/C02 monitors to one block (prev -> current export).
@@ -119,12 +129,12 @@ func conservationStep(n *Node, prev **Holdings, prevEm **big.Int, c01, c02 *[]Mo
 	*prev, *prevEm = cur, em
 }
 
-var scenFills, scenCancelsAfterFill int
+var scenFills, scenCancelsAfterFill, scenAgree int
 
 // orderScenarios: directed histories around limit orders that general random histories rarely produce:
 // an order that is already committed gets partially filled and is then cancelled / expires / is filled
 // again in the SAME block; fills by the commission swap of another transaction; cancel after restart.
-func orderScenarios(seed uint64, count int, c01, c02 *[]MonitorFailure) (blocks, txs int) {
+func orderScenarios(seed uint64, count int, c01, c02, c06 *[]MonitorFailure, checkDeliver bool) (blocks, txs int) {
 	for i := 0; i < count; i++ {
 		s := seed*7777 + uint64(i)
 		r := NewRng(s)
@@ -133,8 +143,32 @@ func orderScenarios(seed uint64, count int, c01, c02 *[]MonitorFailure) (blocks,
 		a, b, c := n.Accts[0], n.Accts[1], n.Accts[2]
 		var prev *Holdings
 		var prevEm *big.Int
+		var recBlocks [][][]byte
+		var recHashes []string
+		recRestart := map[int]bool{}
+		restart := func() { n.Restart(); recRestart[len(recBlocks)] = true }
 		step := func(txs_ [][]byte) *BlockResult {
-			br := n.Block(txs_, nil)
+			opts := &BlockOpts{}
+			if checkDeliver {
+				var chkCode uint32
+				hh := uint64(n.Height + 1)
+				opts.PreTx = func(i int, raw []byte) {
+					n.guard("CheckTx", func() {
+						cs := state.NewCheckState(n.App.VerifStateDeliver())
+						chkCode = transaction.NewExecutorV3(transaction.GetDataV3).RunTx(cs, raw, nil, hh, newSyncMap(), 0, false).Code
+					})
+				}
+				opts.PostTx = func(i int, raw []byte, tr TxResult) {
+					if (chkCode == 0) != (tr.Code == 0) {
+						*c06 = append(*c06, MonitorFailure{What: fmt.Sprintf("C06: transaction at height %d: check mode on the same state returned code %d, DeliverTx %d (%s) raw=%x", hh, chkCode, tr.Code, tr.Log, raw), Key: "c06-check-deliver", Replay: where})
+					} else {
+						scenAgree++
+					}
+				}
+			}
+			br := n.Block(txs_, opts)
+			recBlocks = append(recBlocks, txs_)
+			recHashes = append(recHashes, br.Hash)
 			blocks++
 			txs += len(txs_)
 			if br.Panic != "" {
@@ -168,6 +202,15 @@ func orderScenarios(seed uint64, count int, c01, c02 *[]MonitorFailure) (blocks,
 			orderTxs = append(orderTxs, n.MkTx(b, transaction.TypeAddLimitOrder, transaction.AddLimitOrderData{CoinToSell: tok, ValueToSell: sv2, CoinToBuy: 0, ValueToBuy: price(sv2, int64(1001+r.Intn(12)), 1000, x1, x0)}, 0, nb, 1, nil))
 			nb++
 		}
+		// dust orders right at the pool price on both sides: a commission swap of ~0.1 BIP consumes them completely
+		for k := 0; k < 2+r.Intn(3); k++ {
+			sv := new(big.Int).Add(ZS("20000000000"), r.BigBelow(ZS("50000000000000000")))
+			orderTxs = append(orderTxs, n.MkTx(a, transaction.TypeAddLimitOrder, transaction.AddLimitOrderData{CoinToSell: 0, ValueToSell: sv, CoinToBuy: tok, ValueToBuy: price(sv, int64(10001+r.Intn(20)), 10000, x0, x1)}, 0, na, 1, nil))
+			na++
+			sv2 := new(big.Int).Add(ZS("20000000000"), r.BigBelow(ZS("50000000000000000")))
+			orderTxs = append(orderTxs, n.MkTx(b, transaction.TypeAddLimitOrder, transaction.AddLimitOrderData{CoinToSell: tok, ValueToSell: sv2, CoinToBuy: 0, ValueToBuy: price(sv2, int64(10001+r.Intn(20)), 10000, x1, x0)}, 0, nb, 1, nil))
+			nb++
+		}
 		br := step(orderTxs)
 		var ids []uint32
 		ownerA := map[uint32]bool{}
@@ -180,7 +223,7 @@ func orderScenarios(seed uint64, count int, c01, c02 *[]MonitorFailure) (blocks,
 			}
 		}
 		if r.Intn(3) == 0 {
-			n.Restart()
+			restart()
 		}
 		// several rounds: partial fills and removals / further fills in the same block
 		for round := 0; round < 3+r.Intn(4); round++ {
@@ -198,6 +241,15 @@ func orderScenarios(seed uint64, count int, c01, c02 *[]MonitorFailure) (blocks,
 				blk = append(blk, n.MkTx(c, transaction.TypeSellSwapPool, transaction.SellSwapPoolDataV260{Coins: []types.CoinID{0, tok}, ValueToSell: amt, MinimumValueToBuy: Z(0)}, 0, nc, 1, nil))
 			} else {
 				blk = append(blk, n.MkTx(b, transaction.TypeSellSwapPool, transaction.SellSwapPoolDataV260{Coins: []types.CoinID{tok, 0}, ValueToSell: amt, MinimumValueToBuy: Z(0)}, 0, nb, 1, nil))
+				nb++
+			}
+			// transactions paying their commission in the token (through the same pool, crossing the dust orders)
+			if r.Intn(2) == 0 {
+				blk = append(blk, n.MkTx(b, transaction.TypeSend, transaction.SendData{Coin: tok, To: c.Addr, Value: pip(int64(1 + r.Intn(5)))}, tok, nb, 1, nil))
+				nb++
+			}
+			if r.Intn(2) == 0 {
+				blk = append(blk, n.MkTx(b, transaction.TypeSellSwapPool, transaction.SellSwapPoolDataV260{Coins: []types.CoinID{tok, 0}, ValueToSell: pip(int64(1 + r.Intn(3))), MinimumValueToBuy: Z(0)}, tok, nb, 1, nil))
 				nb++
 			}
 			// then, in the same block, the owners cancel some of their orders (partially filled or not)
@@ -223,7 +275,7 @@ func orderScenarios(seed uint64, count int, c01, c02 *[]MonitorFailure) (blocks,
 				}
 			}
 			if r.Intn(4) == 0 {
-				n.Restart()
+				restart()
 			}
 			if r.Intn(3) == 0 {
 				step(nil)
@@ -238,6 +290,21 @@ func orderScenarios(seed uint64, count int, c01, c02 *[]MonitorFailure) (blocks,
 			step(blk)
 		}
 		n.Cleanup()
+		if checkDeliver {
+			// check mode must be read-only: the same blocks executed WITHOUT any check-mode call give the same app hashes
+			n2 := newNode(&GenesisSpec{NAccounts: 5, Balance: pip(10000000), NVals: 2, ValOwnersFrom: 3})
+			for bi, txs_ := range recBlocks {
+				if recRestart[bi] {
+					n2.Restart()
+				}
+				br := n2.Block(txs_, nil)
+				if br.Hash != recHashes[bi] {
+					*c06 = append(*c06, MonitorFailure{What: fmt.Sprintf("C06: check-mode calls perturb execution: block %d of %s has app hash %s with check-mode calls before each delivery and %s without", bi+1, where, recHashes[bi], br.Hash), Key: "c06-check-perturbs", Replay: where})
+					break
+				}
+			}
+			n2.Cleanup()
+		}
 	}
 	return
 }
